@@ -235,13 +235,40 @@ Definition front_h2 (fs : fields) : Z + wreq :=
 
 (* ---------- frontend 3: SPDY/3.1 ---------- *)
 Definition has_upper (n : bytes) : bool := existsb (fun b => (65 <=? b) && (b <=? 90)) n.
+(* strings.ToLower on non-ASCII names (parseHeaderValueBlock compares name with strings.ToLower(name)):
+   0 = every non-ASCII sequence is one that ToLower leaves alone (U+017F, U+0131, U+00A0);
+   1 = ToLower changes the string: U+212A KELVIN SIGN (-> k), U+0130 (-> i + U+0307), or a byte that can never
+       start a UTF-8 sequence (0x80..0xC1, 0xF8..0xFF: replaced by U+FFFD);
+   98 = some other non-ASCII sequence (Unicode tables not modelled) *)
+Definition zmax98 (a b : Z) : Z := if (a =? 98) || (b =? 98) then 98 else Z.max a b.
+Fixpoint uni_scan (l : bytes) : Z :=
+  match l with
+  | [] => 0
+  | x :: r =>
+    if x <? 128 then uni_scan r
+    else if (x <=? 193) || (248 <=? x) then zmax98 1 (uni_scan r)
+    else match r with
+         | [] => 98
+         | y :: r' =>
+           if (x =? 197) && (y =? 191) then uni_scan r'
+           else if (x =? 196) && (y =? 177) then uni_scan r'
+           else if (x =? 194) && (y =? 160) then uni_scan r'
+           else if (x =? 196) && (y =? 176) then zmax98 1 (uni_scan r')
+           else if (x =? 226) && (y =? 132) then
+             match r' with
+             | z :: r'' => if z =? 170 then zmax98 1 (uni_scan r'') else 98
+             | [] => 98
+             end
+           else 98
+         end
+  end.
 (* parseHeaderValueBlock: names must be lower case; "duplicate" test looks the raw name up in a map keyed
    by canonical names; values are split at NUL *)
 Fixpoint spdy_block (seen : list bytes) (ps : fields) : option fields :=
   match ps with
   | [] => Some []
   | (n, v) :: r =>
-    if has_upper n || existsb (bytes_eqb n) seen then None
+    if has_upper n || (uni_scan n =? 1) || existsb (bytes_eqb n) seen then None
     else match spdy_block (canon_key n :: seen) r with
          | Some fs => Some (map (fun x => (canon_key n, x)) (split_byte 0 v) ++ fs)
          | None => None
@@ -254,7 +281,7 @@ Definition spdy_invalid_key (k : bytes) : bool :=
   bytes_eqb k s_connection || bytes_eqb k s_host || bytes_eqb k s_keepalive ||
   bytes_eqb k s_proxyconn || bytes_eqb k s_te.
 Definition front_spdy (ps : fields) : Z + wreq :=
-  if existsb (fun kv => existsb (fun b => 128 <=? b) (fst kv)) ps then inl 98
+  if existsb (fun kv => uni_scan (fst kv) =? 98) ps then inl 98
   else match spdy_block [] ps with
   | None => inl 1
   | Some h =>
@@ -287,29 +314,49 @@ Definition front_spdy (ps : fields) : Z + wreq :=
 Definition s_head : bytes := [72;69;65;68].
 Definition set_body (r : wreq) (b : wbody) : wreq :=
   {| w_method := w_method r; w_ruri := w_ruri r; w_host := w_host r; w_fields := w_fields r; w_body := b |}.
-Definition attach_body (trailer : bool) (r : wreq) (body : option bytes) : Z + wreq :=
+(* strconv.ParseInt(v, 10, 64): value (clipped to the int64 range) and whether an error is returned *)
+Definition go_parse_int (v : bytes) : Z * bool :=
+  let '(neg, d) := match v with
+                   | x :: r => if x =? 45 then (true, r) else if x =? 43 then (false, r) else (false, v)
+                   | [] => (false, v)
+                   end in
+  match parse_dec d with
+  | None => (0, true)
+  | Some u =>
+    if neg then (if u <=? 2 ^ 63 then (- u, false) else (- 2 ^ 63, true))
+    else (if u <? 2 ^ 63 then (u, false) else (2 ^ 63 - 1, true))
+  end.
+(* h2 = true: HTTP/2 (ParseInt error ignored; a Trailer header makes Request.write emit a map-ordered Trailer
+   line when the body is chunked: code 98); h2 = false: SPDY (ParseInt error or negative value: rejected).
+   ContentLength n: < 0 or absent => the body is re-framed as one chunk; 0 => Request.write probes one byte
+   and, if there is data, re-frames as chunks [first byte; rest]; > 0 => exactly n bytes must follow, else
+   Request.Write fails (code 2). *)
+Definition attach_body (h2 trailer : bool) (r : wreq) (body : option bytes) : Z + wreq :=
   match body with
   | None => inr r
   | Some b =>
     if bytes_eqb (w_method r) s_head then inl 1
-    else if trailer then inl 98
-    else match get_all s_cl (w_fields r) with
-         | [] => inr (set_body r (WChunked [b]))
-         | v :: _ =>
-           if bytes_eqb v (dec_of_Z (blen b))
-           then inr (set_body r (if blen b =? 0 then WNone else WLen (blen b) b))
-           else inl 98
-         end
+    else
+      let chunked (cs : list bytes) := if h2 && trailer then inl 98 else inr (set_body r (WChunked cs)) in
+      match get_all s_cl (w_fields r) with
+      | [] => chunked [b]
+      | v :: _ =>
+        let '(n, err) := go_parse_int v in
+        if negb h2 && (err || (n <? 0)) then inl 1
+        else if n <? 0 then chunked [b]
+        else if n =? 0 then match b with [] => inr (set_body r WNone) | x :: tl => chunked [[x]; tl] end
+        else if n =? blen b then inr (set_body r (WLen n b)) else inl 2
+      end
   end.
 Definition front_h2b (fs : fields) (body : option bytes) : Z + wreq :=
   match front_h2 fs with
   | inl c => inl c
-  | inr r => attach_body (has_key s_trailer (canon_fields (filter (fun kv => negb (is_pseudo (fst kv))) fs))) r body
+  | inr r => attach_body true (has_key s_trailer (canon_fields (filter (fun kv => negb (is_pseudo (fst kv))) fs))) r body
   end.
 Definition front_spdyb (ps : fields) (body : option bytes) : Z + wreq :=
   match front_spdy ps with
   | inl c => inl c
-  | inr r => attach_body false r body
+  | inr r => attach_body false false r body
   end.
 
 (* ---------- strict reference parser for the written bytes ---------- *)
